@@ -3,11 +3,11 @@ package main
 // Symbolic execution of one function activation (top-level or inlined).
 
 import (
-	"sort"
 	"fmt"
-	"strings"
 	"go/token"
 	"go/types"
+	"sort"
+	"strings"
 
 	"golang.org/x/tools/go/ssa"
 )
@@ -468,8 +468,6 @@ func (f *frame) backEdge(li *loopInfo, from *ssa.BasicBlock, cond string, st *St
 	}
 	return nil
 }
-
-
 
 // invProps: an invariant tagged with properties serves those in addition to the function's own.
 func invProps(fc *FuncContract, c *Clause) []string {
